@@ -327,7 +327,11 @@ fn struct_init_block_inner(
     let type_hint = field_ctx.map_or(type_hint, |x|x.1.map_or(type_hint, |x|x.type_hint));
 
     let mut fragments: Vec<TokenStream> = vec![];
+    // Where each fragment goes in a positional counterpart: the index an instruction designates, else the member's own position
+    let mut positions: Vec<usize> = vec![];
+    let mut any_designated = false;
     let mut idx: usize = 0;
+    let mut skipped: usize = 0;
 
     while let Some(FieldContainer { path, nested, field_data }) = members.peek() {
         if let Some(field_ctx) = field_ctx {
@@ -342,6 +346,10 @@ fn struct_init_block_inner(
                 let attrs = &f.attrs;
                 if !ctx.kind.is_from() && (attrs.ghost(&ctx.struct_attr.ty, &ctx.kind).is_some() || attrs.has_parent_attr(&ctx.struct_attr.ty)) {
                     members.next();
+                    // members of a struct count from their declared position (like From reads them), payload fields of a variant from the bound ones
+                    if !ctx.impl_type.is_variant() {
+                        skipped += 1;
+                    }
                     continue;
                 }
 
@@ -354,6 +362,9 @@ fn struct_init_block_inner(
                     }
                 }
 
+                let at_leaf = attrs.child(&ctx.struct_attr.ty).map_or(true, |x| field_ctx.map_or(false, |ctx| ctx.2 + 1 >= x.child_path.child_path_str.len()));
+                let designated = if at_leaf && !ctx.kind.is_from() { designated_index(f, ctx) } else { None };
+                any_designated |= designated.is_some();
                 let fragment = match attrs.child(&ctx.struct_attr.ty) {
                     Some(child_attr) => render_child_fragment(&child_attr.child_path, members, ctx, field_ctx.map(|x|x.2), type_hint, || render_struct_line(f, ctx, type_hint, idx, None)),
                     None => {
@@ -362,18 +373,21 @@ fn struct_init_block_inner(
                     }
                 };
                 fragments.push(fragment);
+                positions.push(designated.unwrap_or(idx + skipped));
                 idx += 1;
             },
             FieldData::GhostData(g) => {
                 let child_path = &g.child_path.as_ref().unwrap();
                 let fragment = render_child_fragment(child_path, members, ctx, field_ctx.map(|x|x.2), type_hint, TokenStream::new);
                 fragments.push(fragment);
+                positions.push(idx + skipped);
                 idx += 1;
             },
             FieldData::ParentChildField(f, p) => {
                 let type_hint = if type_hint == TypeHint::Unspecified { if ctx.input.named_fields() {TypeHint::Struct} else {TypeHint::Tuple} } else { type_hint };
                 let fragment = render_parent_child_fragment(f, p, members, p.named_fields(), ctx, field_ctx.map(|x|x.2), || render_struct_line(f, ctx, type_hint, idx, Some(p)));
                 fragments.push(fragment);
+                positions.push(idx + skipped);
                 idx += 1;
             }
         }
@@ -381,13 +395,18 @@ fn struct_init_block_inner(
 
     if !ctx.kind.is_from() {
         if let Some(ghost_attr) = ctx.input.get_attrs().ghosts_attr(&ctx.struct_attr.ty, &ctx.kind) {
+            let ghost_position = |x: &GhostData| match &x.ghost_ident { GhostIdent::Member(Unnamed(index)) => index.index as usize, _ => usize::MAX };
             ghost_attr.ghost_data.iter().for_each(|x| match (&x.child_path, field_ctx) {
                 (Some(_), Some(field_ctx)) => {
                     if x.get_child_path_str(None) == field_ctx.0.get_child_path_str(Some(field_ctx.2)) {
-                        fragments.push(render_ghost_line(x, ctx))
+                        fragments.push(render_ghost_line(x, ctx));
+                        positions.push(ghost_position(x));
                     }
                 }
-                (None, None) => fragments.push(render_ghost_line(x, ctx)),
+                (None, None) => {
+                    fragments.push(render_ghost_line(x, ctx));
+                    positions.push(ghost_position(x));
+                },
                 _ => (),
             });
         }
@@ -395,11 +414,19 @@ fn struct_init_block_inner(
 
     if let (Some(update), false) = (&ctx.struct_attr.update, ctx.has_post_init) {
         let a = quote_action(update, None, ctx);
-        fragments.push(quote!(..#a))
+        fragments.push(quote!(..#a));
+        positions.push(usize::MAX);
     }
 
     if ctx.has_post_init || ctx.kind.is_into_existing() {
         return quote!(#(#fragments)*);
+    }
+
+    // A positional counterpart receives each value at the position designated for it
+    if any_designated && !ctx.kind.is_from() && (type_hint == TypeHint::Tuple || type_hint == TypeHint::Unspecified && !named_fields) {
+        let mut positioned: Vec<(usize, TokenStream)> = positions.into_iter().zip(fragments).collect();
+        positioned.sort_by_key(|x| x.0);
+        fragments = positioned.into_iter().map(|x| x.1).collect();
     }
 
     match (&ctx.kind, type_hint, named_fields) {
@@ -410,6 +437,13 @@ fn struct_init_block_inner(
         (_, TypeHint::Unspecified, true) => quote!({#(#fragments)*}),
         (_, TypeHint::Unspecified, false) => quote!((#(#fragments)*)),
         (_, TypeHint::Unit, _) => unreachable!("2"),
+    }
+}
+
+fn designated_index(f: &Field, ctx: &ImplContext) -> Option<usize> {
+    match f.attrs.applicable_attr(&ctx.kind, ctx.fallible, &ctx.struct_attr.ty) {
+        Some(ApplicableAttr::Field(MemberAttrCore { member: Some(Unnamed(index)), .. })) => Some(index.index as usize),
+        _ => None,
     }
 }
 
@@ -806,14 +840,14 @@ fn render_struct_line(
             let right_field_path = get_child_field_path(&f.member);
             let right_side = attr.get_action_or(Some(&right_field_path), ctx, || quote!(#obj #right_field_path));
             if ctx.has_post_init {
-                let left_field_path = get_field_path(&Unnamed(Index { index: idx as u32, span: Span::call_site() }));
+                let left_field_path = get_field_path(&Unnamed(Index { index: designated_index(f, ctx).unwrap_or(idx) as u32, span: Span::call_site() }));
                 quote!(obj.#left_field_path = #right_side;)
             } else {
                 quote!(#right_side,)
             }
         },
         (Named(_), Some(attr), Kind::OwnedIntoExisting | Kind::RefIntoExisting, TypeHint::Tuple) => {
-            let left_field_path = get_field_path(&Unnamed(Index { index: idx as u32, span: Span::call_site() }));
+            let left_field_path = get_field_path(&Unnamed(Index { index: designated_index(f, ctx).unwrap_or(idx) as u32, span: Span::call_site() }));
             let right_field_path = get_child_field_path(&f.member);
             let right_side = attr.get_action_or(Some(&right_field_path), ctx, || quote!(#obj #right_field_path));
             quote!(other.#left_field_path = #right_side;)
@@ -833,7 +867,7 @@ fn render_struct_line(
             let field_path = get_child_field_path(index);
             let right_side = attr.get_action_or(Some(&field_path), ctx, || quote!(#obj #field_path));
             if ctx.has_post_init {
-                let left_field_path = get_field_path(&Unnamed(Index { index: idx as u32, span: Span::call_site() }));
+                let left_field_path = get_field_path(&Unnamed(Index { index: designated_index(f, ctx).unwrap_or(idx) as u32, span: Span::call_site() }));
                 quote!(obj.#left_field_path = #right_side;)
             } else {
                 quote!(#right_side,)
